@@ -65,6 +65,31 @@ func main() {
 				p = genC05(r, idx, *tier)
 			}
 			runC05(e, idx, p)
+		case "C01", "C02", "C06":
+			var c *SolveCase
+			if desc != "" {
+				c = &SolveCase{}
+				mustJSON(desc, c)
+				c.P.norm()
+			} else if *prop == "C02" {
+				c = genC02(r, idx, *tier)
+			} else {
+				c = genC01(r, idx, *tier)
+				if *prop == "C06" {
+					c.Cfg.Cert = true
+				}
+			}
+			runSolve(e, idx, c, *prop == "C06")
+		case "C03":
+			var c *OptCase
+			if desc != "" {
+				c = &OptCase{}
+				mustJSON(desc, c)
+				c.norm()
+			} else {
+				c = genC03(r, idx, *tier)
+			}
+			runC03(e, idx, c)
 		default:
 			fmt.Fprintln(os.Stderr, "unknown property", *prop)
 			os.Exit(2)
